@@ -48,6 +48,11 @@ def gen_rule_file(rng, gen, multiline_string=False):
                 toks[i] = t[:2] + eol + '   ' + t[2:]
                 ml = True
                 break
+    # arithmetic in the condition, so that a wrapped line can begin with an operator character (`*`, `/`, `-`)
+    if rng.random() < 0.3 and 'SELECT' in toks:
+        si = len(toks) - 1 - toks[::-1].index('SELECT')
+        arith = ['6', '/', '2', '*', '3', '-', '1', '==', '8']
+        toks[si:si] = (['&&'] if 'WHERE' in toks[:si] else ['WHERE']) + arith
     # wrap at arbitrary token boundaries, with indentation
     parts = []
     for i, t in enumerate(toks):
@@ -55,6 +60,8 @@ def gen_rule_file(rng, gen, multiline_string=False):
             a = toks[i - 1]
             must = querygen.needs_space(a, t)
             r = rng.random()
+            if t in ('*', '/', '-') and rng.random() < 0.5:
+                r = 0.0          # break the line right before the operator
             if r < 0.25:
                 parts.append(eol + rng.choice(['', '  ', '\t', '      ']))
             elif must or r < 0.8:
@@ -193,11 +200,30 @@ def check_c17(tier, seed, res, work):
         gha = (trial // 2) % 2 == 1
         env = dict(env_base)
         outname = 'report_%d.%s' % (trial, fmt)
+        wrong_place = None
         if gha:
+            # the report goes beneath the workspace directory whatever --output-file looks like: a bare name, an
+            # absolute path in a sibling directory whose name starts like the workspace's, an absolute path inside
+            # the workspace, a relative workspace with a name starting like it
             ws = '%s/ws%d' % (work, trial)
             os.makedirs(ws, exist_ok=True)
+            layout = (trial // 4) % 4
+            if layout == 0:
+                outarg = outname
+            elif layout == 1:
+                outarg = ws + '-reports/' + outname
+                os.makedirs(ws + '-reports', exist_ok=True)
+            elif layout == 2:
+                outarg = ws + '/' + outname
+            else:
+                ws = 'wsrel%d' % trial
+                os.makedirs(work + '/' + ws, exist_ok=True)
+                outarg = ws + '-' + outname
             env.update(GITHUB_ACTIONS='true', GITHUB_WORKSPACE=ws)
-            expected_path, outarg = ws + '/' + outname, outname
+            expected_path = os.path.normpath(os.path.join(work, ws + '/' + outarg)) if not os.path.isabs(ws) else os.path.normpath(ws + '/' + outarg)
+            os.makedirs(os.path.dirname(expected_path), exist_ok=True)
+            wrong_place = outarg if os.path.isabs(outarg) else os.path.join(work, outarg)
+            stats['gha_layout_%d' % layout] += 1
         else:
             env.pop('GITHUB_ACTIONS', None)
             expected_path = outarg = '%s/%s' % (work, outname)
@@ -209,6 +235,10 @@ def check_c17(tier, seed, res, work):
         stats['bad_rules'] += len(bad_positions)
         replay = dict(property='C17', ruleset=[(n, t.decode('utf-8', 'replace')) for n, t in rules], project=[(p, d.decode('utf-8', 'replace')) for p, d in files],
                       how='pathfinder ci --project P --ruleset R --output %s --output-file F%s' % (fmt, ' with GITHUB_ACTIONS=true GITHUB_WORKSPACE=W' if gha else ''))
+        if wrong_place and os.path.normpath(wrong_place) != expected_path and os.path.exists(wrong_place):
+            res.violations.append(dict(replay, what='under GitHub Actions variables the report was written outside the workspace directory', written=wrong_place,
+                                       expected_path=expected_path, env=dict(GITHUB_ACTIONS='true', GITHUB_WORKSPACE=ws), output_file=outarg))
+            continue
         if rc != 0 or not os.path.exists(expected_path):
             res.violations.append(dict(replay, what='ci run produced no report at the expected place (exit status %d)' % rc, stderr=e.decode(errors='replace')[-300:], expected_path=expected_path))
             continue
